@@ -62,7 +62,7 @@ import numpy as np
 from .. import common
 from ..runner import Corr, Failure
 
-LEAN_MODULES = ['SvgVerif.Props.C19', 'SvgVerif.Props.C19Identities']
+LEAN_MODULES = ['SvgVerif.Props.C19', 'SvgVerif.Props.C19Identities', 'SvgVerif.Props.C19Limit']
 GEN = {'C19': gen_defs}
 ASSUMPTIONS = [
     'np.roots is an oracle: the theorems start from the list it returns',
